@@ -80,7 +80,7 @@ pub fn plan_c15(tier: &str, seed: u64) -> Plan {
         lines.push(format!("parse x{}", h(&f)));
     }
     Plan {
-        cases: vec![Case { name: format!("c15-exhaustive-len{n}+formulas"), lines }],
+        cases: vec![Case { expect: vec![], name: format!("c15-exhaustive-len{n}+formulas"), lines }],
         exhaustive: true,
         rule: format!("every string over {{A,é,:,&,|,(,),space,*,U+00A0}} of length <= {n} (exhaustive), the documented examples and targeted non-ASCII shapes, and {nf} random formulas (<=16 atoms, random spacing, redundant parentheses, juxtaposition); a case is one string; parse result (AST and DNF, or error) of the implementation is compared with the Lean model; distinct = distinct (input, outcome) pairs"),
     }
@@ -190,7 +190,7 @@ pub fn plan_c01(tier: &str, seed: u64, kem_pairs: usize) -> Plan {
             let e = rng.pick(&pols).clone();
             lines.push(format!("covers M0 K1 t:{} t:{}", h(&u), h(&e)));
         }
-        cases.push(Case { name: format!("c01-shape{si}"), lines });
+        cases.push(Case { expect: vec![], name: format!("c01-shape{si}"), lines });
     }
     Plan {
         cases,
@@ -276,11 +276,154 @@ pub fn plan_history(prop: &str, tier: &str, seed: u64, n: usize) -> Plan {
     let mut cases = vec![];
     for i in 0..n {
         let s = master.next();
-        cases.push(Case { name: format!("{prop}-hist{i}-seed{s}"), lines: HistGen::history(s, p.clone()) });
+        cases.push(Case { expect: vec![], name: format!("{prop}-hist{i}-seed{s}"), lines: HistGen::history(s, p.clone()) });
     }
     Plan {
         cases,
         exhaustive: false,
         rule: format!("{n} random operation histories ({} ops after a random base structure of <= {} dimensions x <= {} attributes; profile {:?}); a case is one history executed on the real API and on the Lean model with canonical outputs compared line by line; distinct = distinct canonical implementation traces (hash of ops and normalised outputs)", p.n_ops, p.max_dims, p.max_attrs, prop),
+    }
+}
+
+use crate::run::Expect;
+
+fn xb(b: &[u8]) -> String {
+    format!("x{}", hex(b))
+}
+
+fn c12_prelude() -> Vec<String> {
+    vec![
+        "reset".into(),
+        "setup M0 K0".into(),
+        format!("add_dim M0 h {}", h("S")),
+        format!("add_attr M0 {} {} c -", h("S"), h("L")),
+        format!("add_attr M0 {} {} h {}", h("S"), h("T"), h("L")),
+        format!("add_dim M0 a {}", h("D")),
+        format!("add_attr M0 {} {} c -", h("D"), h("A")),
+        format!("add_attr M0 {} {} c -", h("D"), h("B")),
+        "update M0 K1".into(),
+        format!("keygen M0 U0 t:{}", h("D::A && S::T")),
+        format!("keygen M0 U1 t:{}", h("D::B")),
+    ]
+}
+
+/// PKE and header layers: every plaintext / metadata length in a range, every combination of
+/// absent / empty / present metadata and authentication data, truncation at every length,
+/// authorised and unauthorised keys. Each check line carries what the *specification* demands.
+pub fn plan_c12(tier: &str, seed: u64) -> Plan {
+    let mut rng = SplitMix64::new(seed ^ 0xC12);
+    let thorough = tier == "thorough";
+    let mut cases = vec![];
+    let mut data = |rng: &mut SplitMix64, n: usize| -> Vec<u8> { (0..n).map(|_| rng.next() as u8).collect() };
+    // which encryption policies the authorised key U0 (D::A && S::T) opens
+    let pols_ok = ["D::A && S::L", "D::A && S::T", "S::L", "*", "D::A"];
+    let ex = |out: &str, oracle: &str, tags: &[&str]| Expect { out: out.into(), oracle: oracle.into(), tags: tags.iter().map(|s| s.to_string()).collect() };
+
+    // --- PKE
+    let mut lens: Vec<usize> = (0..=70).collect();
+    lens.extend([4090, 4095, 4096, 4097, 8192]);
+    if thorough {
+        lens.extend(71..=300);
+    }
+    for &l in &lens {
+        let mut c = Case::new(format!("c12-pke-len{l}"), c12_prelude());
+        let ptx = data(&mut rng, l);
+        let pol = *rng.pick(&pols_ok);
+        c.lines.push(format!("pke_enc K1 X0 t:{} {}", h(pol), xb(&ptx)));
+        c.expect.push((c.lines.len() - 1, ex(&format!("ok len={}", l + 28), "pke-roundtrip", &[])));
+        c.lines.push("pke_dec U0 X0".into());
+        c.expect.push((c.lines.len() - 1, ex(&format!("ok some {}", xb(&ptx)), "pke-roundtrip", &[])));
+        c.lines.push("pke_dec U1 X0".into());
+        // U1 = D::B: opens only policies that do not constrain D to A
+        let u1_opens = pol == "S::L" || pol == "*";
+        c.expect.push((c.lines.len() - 1, ex(if u1_opens { "ok some" } else { "ok none" }, "pke-unauthorized", &[])));
+        if u1_opens {
+            c.expect.pop();
+        }
+        // truncation at every length (small plaintexts) or at sampled lengths
+        let total = l + 28;
+        let cuts: Vec<usize> = if l <= 40 || thorough && l <= 70 { (0..total).collect() } else { (0..12).map(|_| rng.below(total)).chain([0, 11, 12, 13, total - 1]).collect() };
+        for cut in cuts {
+            c.lines.push(format!("pke_tamper X0 X1 trunc {cut}"));
+            c.lines.push("pke_dec U0 X1".into());
+            c.expect.push((c.lines.len() - 1, ex("err _", "pke-truncated", &["truncated"])));
+        }
+        for _ in 0..6 {
+            let pos = rng.below(total);
+            c.lines.push(format!("pke_tamper X0 X1 flip {pos}"));
+            c.lines.push("pke_dec U0 X1".into());
+            c.expect.push((c.lines.len() - 1, ex("err _", "pke-altered", &["altered"])));
+        }
+        // the ciphertext of one encapsulation under the encapsulation of another
+        c.lines.push(format!("encaps K1 E0 t:{}", h(pol)));
+        c.lines.push("pke_tamper X0 X1 swapenc E0".into());
+        c.lines.push("pke_dec U0 X1".into());
+        c.expect.push((c.lines.len() - 1, ex("err _", "pke-swapped-encapsulation", &["swapenc"])));
+        cases.push(c);
+    }
+
+    // --- encrypted header
+    let mut metas: Vec<Option<Vec<u8>>> = vec![None, Some(vec![])];
+    for l in 1..=40 {
+        metas.push(Some(data(&mut rng, l)));
+    }
+    let ads: Vec<Option<Vec<u8>>> = vec![None, Some(vec![]), Some(b"ad".to_vec()), Some(data(&mut rng, 33))];
+    let ob = |o: &Option<Vec<u8>>| o.as_ref().map(|b| xb(b)).unwrap_or("-".into());
+    let adb = |o: &Option<Vec<u8>>| o.clone().unwrap_or_default();
+    for (mi, md) in metas.iter().enumerate() {
+        // full AD matrix for absent / empty / a few lengths, a sample otherwise
+        let full = mi < 4 || mi % 8 == 0 || thorough;
+        for ad in &ads {
+            if !full && !rng.chance(1, 3) {
+                continue;
+            }
+            let mut c = Case::new(format!("c12-hdr-meta{mi}-ad{}", ob(ad)), c12_prelude());
+            let pol = *rng.pick(&pols_ok);
+            c.lines.push(format!("hdr_gen K1 H0 t:{} {} {}", h(pol), ob(md), ob(ad)));
+            c.expect.push((c.lines.len() - 1, ex(&format!("ok meta={}", md.as_ref().map(|m| (m.len() + 28).to_string()).unwrap_or("-".into())), "hdr-generate", &[])));
+            for ad2 in ads.iter().chain([Some(b"other".to_vec())].iter()) {
+                c.lines.push(format!("hdr_dec U0 H0 {}", ob(ad2)));
+                let same = adb(ad2) == adb(ad);
+                let mut tags = vec![];
+                if md.is_none() {
+                    tags.push("metadata_absent");
+                }
+                if !same {
+                    tags.push("ad_differs");
+                }
+                let want = if same { format!("ok some sec=1 meta={}", ob(md)) } else { "err _".to_string() };
+                c.expect.push((c.lines.len() - 1, ex(&want, "hdr-authentication-data", &tags)));
+                c.lines.push(format!("hdr_dec U1 H0 {}", ob(ad2)));
+                if !(pol == "S::L" || pol == "*") {
+                    c.expect.push((c.lines.len() - 1, ex("ok none", "hdr-unauthorized", &[])));
+                }
+            }
+            if let Some(m) = md {
+                let total = m.len() + 28;
+                for cut in 0..total {
+                    c.lines.push(format!("hdr_tamper H0 H1 trunc {cut}"));
+                    c.lines.push(format!("hdr_dec U0 H1 {}", ob(ad)));
+                    // truncating the metadata ciphertext to nothing turns it into "absent" on the wire only;
+                    // in memory it is an empty ciphertext, which is too short
+                    c.expect.push((c.lines.len() - 1, ex("err _", "hdr-truncated", &["truncated"])));
+                }
+                for _ in 0..4 {
+                    let pos = rng.below(total);
+                    c.lines.push(format!("hdr_tamper H0 H1 flip {pos}"));
+                    c.lines.push(format!("hdr_dec U0 H1 {}", ob(ad)));
+                    c.expect.push((c.lines.len() - 1, ex("err _", "hdr-altered", &["altered"])));
+                }
+            }
+            // serialisation round trip keeps the outcome
+            c.lines.push("hdr_tamper H0 H2 roundtrip 0".into());
+            c.lines.push(format!("hdr_dec U0 H2 {}", ob(ad)));
+            c.expect.push((c.lines.len() - 1, ex(&format!("ok some sec=1 meta={}", ob(md)), "hdr-roundtrip", &[])));
+            cases.push(c);
+        }
+    }
+    Plan {
+        cases,
+        exhaustive: false,
+        rule: format!("PKE: plaintext lengths 0..70{} and around 4 KiB / 8 KiB, authorised and unauthorised keys, truncation at every length (short plaintexts) or sampled lengths incl. the nonce boundary, bit flips, ciphertext spliced under another encapsulation; header: metadata absent / empty / 1..40 bytes x authentication data absent / empty / short / 33 bytes, decrypted with every authentication-data variant plus a different one, truncation of the metadata ciphertext at every length, bit flips, serialisation round trip. Every check line is compared with the Lean model AND with what the specification demands; distinct = distinct canonical traces", if thorough { "..300" } else { "" }),
     }
 }
